@@ -364,32 +364,42 @@ def check_lookups(ctx, esc):
         """is the constant `enc` right for exchange contexts C?"""
         return (INIT not in C) if enc else (C <= {INIT})
 
+    from ..sval import NONE, strip_ids
+    from .. import tq
     n = 0
     for q in sorted(ctxs):
         f = prog.functions[q]
         C = ctxs[q]
-        for x in walk_no_nested(f.node):
-            if not (isinstance(x, ast.Call) and isinstance(x.func, ast.Attribute) and x.func.attr in LOOKUPS):
+        if not isinstance(f.node, ast.FunctionDef):
+            continue
+        S = ctx.sval(f)
+        for c in S.calls:
+            if c.name not in LOOKUPS or not any(t.startswith('message.Message.') for t in c.quals):
                 continue
-            recv = x.func.value
-            rt = src(recv)
-            kw = kwargs_of(x, names=['type', 'encrypted'])
-            enc = kw.get('encrypted')
+            recv = c.recv if c.recv is not None else NONE
+            enc = c.args.get('encrypted')
+            x = c.node
             n += 1
             site = ctx.site(f, x)
             what = '%s in %s' % (src(x)[:70], f.name)
+
+            def const_t(t):
+                if t is None:
+                    return False
+                if t[0] == 'const' and isinstance(t[2], bool):
+                    return t[2]
+                return None
             # --- retained IKE_SA_INIT messages
-            d = single_def(res, f, rt) if isinstance(recv, ast.Name) else None
-            if isinstance(d, ast.Call) and callee_name(d) == 'parse' and d.args and 'ike_sa_init_' in src(d.args[0]):
-                ctx.check(const_enc(enc) is False, 'U3', 'retained IKE_SA_INIT message is read from its clear payload list: '
+            if tq.is_call(recv, 'message.Message.parse') and 'ike_sa_init_' in tq.text(tq.args(recv).get('data', NONE)):
+                ctx.check(const_t(enc) is False, 'U3', 'retained IKE_SA_INIT message is read from its clear payload list: '
                           + what, key=('U3', f.qual, 'retained', src(x)), site=site)
                 continue
-            is_param = isinstance(recv, ast.Name) and recv.id in f.call_params()
-            own = rt == 'self.request'
+            is_param = recv[0] == 'param' and recv[1] in f.call_params()
+            own = recv == ('attr', ('param', 'self'), 'request')
             if not (is_param or own):
-                raise AnalysisError('U3: payload lookup on an unclassified receiver `%s` in %s' % (rt, f.qual))
+                raise AnalysisError('U3: payload lookup on an unclassified receiver `%s` in %s' % (tq.text(recv, 80), f.qual))
             label = 'own outstanding request' if own else 'received message'
-            ce = const_enc(enc)
+            ce = const_t(enc)
             if ce is not None:
                 ok = need(ce, C)
                 if not ok and ce is False and cookie_exception(ctx, esc, f, x):
@@ -400,27 +410,30 @@ def check_lookups(ctx, esc):
                     label, sorted(C), 'encrypted' if ce else 'clear', what),
                     key=('U3', f.qual, 'const', src(x)), site=site)
                 continue
-            if isinstance(enc, ast.Name) and enc.id in f.call_params():
+            if enc[0] == 'param' and enc[1] in f.call_params():
                 sites = callers.get(f.qual, [])
                 ctx.require(bool(sites), 'U3: %s takes `encrypted` but has no resolved caller' % f.qual)
                 for cf, cx in sites:
-                    b = kwargs_of(cx, target=f)
-                    be = b.get(enc.id, f.defaults().get(enc.id))
-                    cb = const_enc(be)
-                    ctx.require(cb is not None, 'U3: `%s` passed on as a non-constant at %s' % (enc.id, ctx.site(cf, cx)))
+                    CS = ctx.sval(cf)
+                    recs = [r_ for r_ in CS.calls if r_.node is cx]
+                    ctx.require(len(recs) == 1, 'U3: call %s not evaluated in %s' % (src(cx)[:40], cf.qual))
+                    be = recs[0].args.get(enc[1])
+                    if be is None and enc[1] in f.defaults():
+                        d_ = f.defaults()[enc[1]]
+                        be = ('const', type(d_.value).__name__, d_.value) if isinstance(d_, ast.Constant) else None
+                    cb = const_t(be) if be is not None else None
+                    ctx.require(cb is not None, 'U3: `%s` passed on as a non-constant at %s' % (enc[1], ctx.site(cf, cx)))
                     ctx.check(need(cb, ctxs[cf.qual]), 'U3', '%s binds %s=%s for exchange(s) %s: %s' % (
-                        cf.name, enc.id, cb, sorted(ctxs[cf.qual]), what),
+                        cf.name, enc[1], cb, sorted(ctxs[cf.qual]), what),
                         key=('U3', f.qual, 'param', cf.qual, src(x)), site=ctx.site(cf, cx))
                 continue
-            if isinstance(enc, ast.Name):
-                de = single_def(res, f, enc.id)
-                cp = compare_parts(de) if isinstance(de, ast.AST) else None
-                ok = cp is not None and src(cp[0]) == rt + '.exchange_type' and common.exchange_of(cp[2]) == INIT \
-                    and cp[1] in (ast.Gt, ast.NotEq)
-                ctx.check(ok, 'U3', '`%s` is derived from the exchange type of the message being read: %s' % (enc.id, what),
-                          key=('U3', f.qual, 'computed', src(x)), site=site)
-                continue
-            raise AnalysisError('U3: cannot evaluate the `encrypted` argument of %s' % what)
+            # computed: encrypted exactly when the exchange of the message being read is later than IKE_SA_INIT
+            ex = ('attr', recv, 'exchange_type')
+            init = ('global', 'message.Message.Exchange.IKE_SA_INIT')
+            se = strip_ids(enc)
+            ok = se in (strip_ids(S.mk_cmp('<', init, ex)), ('not', strip_ids(S.mk_cmp('==', ex, init))))
+            ctx.check(ok, 'U3', 'the list is chosen by the exchange type of the message being read: %s' % what,
+                      key=('U3', f.qual, 'computed', src(x)), site=site, detail={'encrypted': tq.text(enc)})
     return n
 
 
